@@ -211,6 +211,7 @@ fn main() {
                 "passes" => replay::replay_passes(&args[3], &mut out),
                 "mlstring" => replay::replay_mlstring(&args[3], &mut out),
                 "comment" => replay::replay_comment(&args[3], &mut out),
+                "recon" => replay::replay_recon(&args[3], &mut out),
                 k => panic!("unknown replay kind {k}"),
             };
             let _ = out.flush();
